@@ -32,7 +32,9 @@ RULE = ('scratch NP2.1 / NP2.4 recordings (385 channels, fixture meta data with 
         'lengths, ns = taper .. , every ns mod 12 class) and below one taper (error branch); optionally nsamples < file length. '
         'Structural cases compare, for EVERY shank file, LF row count, sync column, channel list, LF meta data (acqApLfSy, snsApLfSy, nSavedChans, '
         'fileSizeBytes, imSampRate, snsSaveChanSubset and _orig, shank number) and the shape spikeglx.Reader opens the file with against '
-        'the Lean model; about a third of the cases (and of the numeric ones) make the examined extraction the 2nd/3rd one of the SAME converter object '
+        'the Lean model; the FORM of the call is drawn independently of the values for ~55 % of the cases (str / Path, .bin / .cbin original, positional / keyword '
+        'arguments, int / float / numpy-typed nwindow and nsamples; sync words restricted to 0x8000, 0x7fff, 0xffff, 0, 1; AP values over the full int16 range); '
+        'about a third of the cases (and of the numeric ones) make the examined extraction the 2nd/3rd one of the SAME converter object '
         '(other window sizes before, overwrite=True) and demand the same answers from the history-free model plus byte identity with a fresh object; '
         'and (scipy.signal.sosfiltfilt replaced by the identity) the voltage columns against AP[12 m] picked through '
         "the model's index map. Numeric cases (broadband content: white / gaussian / coloured noise, spikes, steps; amplitude within the "
@@ -42,7 +44,12 @@ ASSUMPTIONS = [
     'window sizes <= samples_overlap (576) are outside the property: WindowGenerator does not advance there; never generated (model: err diverges)',
     'recordings shorter than samples_taper (144 samples, 4.8 ms) make extract_lfp raise ValueError (taper broadcast); the model has the same '
     'error branch (theorem lf_short_recording_error), the oracle treats such lengths as outside the domain of the property',
-    'AP content within the NP2 ADC range (|x| <= 8191): beyond it the int16 cast after filtering may wrap, which the property does not speak about',
+    'AP content: any int16 values whose zero-phase low-pass stays inside int16 (always true within the NP2 ADC range |x| <= 8192: overshoot <= 7 %); where the '
+    'filtered whole trace itself exceeds +-32766 (e.g. a full-swing +-32767 square wave: +-34955) the unchanged code wraps modulo 2^16 in astype(int16) - '
+    'those samples are outside the oracle\'s domain (known_findings demo lf-overshoot-beyond-int16-wraps), contents generated stay inside',
+    'input forms: ap_file as str or Path, original .bin or mtscomp .cbin/.ch, constructor / init_params / process arguments positional (current signature order) '
+    'or by keyword, nwindow / nsamples as int, float, numpy int64/int32/uint16/uint32/float64 - all must give the answer of the mathematical value; '
+    'the model has no notion of form',
     'one sync channel (snsApLfSy[2] = 1) and, for NP2.1, every saved channel kept (nSavedChans = channels written): hypotheses of lf_meta / lf_file_opens',
     'the reference for "zero-phase low-pass of the whole trace" uses the converter\'s own sos_lp (any low-pass with |H(0)| = 1, |H(Nyquist)| < 1e-3 is accepted), '
     'the property does not fix the cut-off',
@@ -162,10 +169,12 @@ def _make_recording(tmp, version, D, rate, layout=None):
 
 @contextlib.contextmanager
 def _quiet():
+    import io
     prev = logging.root.manager.disable
     logging.disable(logging.CRITICAL)
     try:
-        yield
+        with contextlib.redirect_stderr(io.StringIO()):      # mtscomp progress bars
+            yield
     finally:
         logging.disable(prev)
 
@@ -184,23 +193,62 @@ def _identity_filter(on):
         scipy.signal.sosfiltfilt = orig
 
 
-def _convert(version, D, nwindow, nsamples=None, rate=None, identity=False, layout=None, prior=None):
+NUM_FORMS = ('int', 'float', 'np.int64', 'np.int32', 'np.uint16', 'np.uint32', 'np.float64')
+DEFAULT_FORM = {'path': 'Path', 'source': 'bin', 'ctor': 'kw', 'init': 'kw', 'nwindow': 'int', 'nsamples': 'int', 'process': 'kw', 'post_check': False}
+
+
+def _num(x, form):
+    """The integer x in one of its legitimate representations (None stays None)."""
+    if x is None or form == 'int':
+        return x
+    if form == 'float':
+        return float(x)
+    ty = getattr(np, form.split('.')[1])
+    if form.startswith('np.uint') and x > np.iinfo(ty).max:
+        return np.int64(x)
+    return ty(x)
+
+
+def _convert(version, D, nwindow, nsamples=None, rate=None, identity=False, layout=None, prior=None, form=None):
     """Run the real NP2Converter on a scratch copy of D.  Returns {'err': str} or {'files': [...], 'sos': sos, 'ns_read': int}.
     `prior` = window sizes of earlier extractions made with the SAME converter object before the one that is returned:
     conv.init_params(nwindow=prior[k], extra=...); conv.process(overwrite=k>0) ...; conv.init_params(nwindow=nwindow); conv.process(overwrite=True)."""
     import spikeglx
     from neuropixel import NP2Converter
+    fm = dict(DEFAULT_FORM, **(form or {}))
     tmp = tempfile.mkdtemp(prefix='c12_')
     conv = None
+
+    def init(w, extra):
+        wv, nv = _num(w, fm['nwindow']), _num(nsamples, fm['nsamples'])
+        if fm['init'] == 'pos':     # init_params(self, nsamples=None, nwindow=None, extra=None, nshank=None)
+            conv.init_params(nv, wv, extra)
+        else:
+            conv.init_params(nsamples=nv, nwindow=wv, extra=extra)
+
+    def process(ow):
+        if fm['process'] == 'pos':  # process(self, overwrite=False)
+            return conv.process(ow)
+        return conv.process(overwrite=ow) if ow else conv.process()
     try:
         with _quiet(), _identity_filter(identity):
             binf = _make_recording(tmp, version, D, rate, layout)
-            conv = NP2Converter(binf, post_check=False, compress=False)
+            if fm['source'] == 'cbin':      # the original is an mtscomp-compressed file (.cbin + .ch), the flat binary is gone
+                sr0 = spikeglx.Reader(binf, sort=False)
+                cbin = sr0.compress_file(keep_original=False)
+                sr0.close()
+                binf = Path(cbin)
+            apf = str(binf) if fm['path'] == 'str' else Path(binf)
+            pc = bool(fm['post_check'])      # a value, not a form: makes the three options distinguishable (True, False, False)
+            if fm['ctor'] == 'pos':         # __init__(self, ap_file, post_check=True, delete_original=False, compress=True)
+                conv = NP2Converter(apf, pc, False, False)
+            else:
+                conv = NP2Converter(apf, post_check=pc, delete_original=False, compress=False)
             ns_read = int(conv.sr.ns)
             for k, pw in enumerate(prior or []):
                 try:
-                    conv.init_params(nsamples=nsamples, nwindow=pw, extra=f'_c12p{k}')
-                    conv.process(overwrite=(k > 0))
+                    init(pw, f'_c12p{k}')
+                    process(k > 0)
                 except Exception as e:
                     for info in getattr(conv, 'shank_info', {}).values():
                         for kk in ('lf_open_file', 'ap_open_file'):
@@ -208,12 +256,12 @@ def _convert(version, D, nwindow, nsamples=None, rate=None, identity=False, layo
                                 info[kk].close()
                     return {'err': f'err prior-extraction {type(e).__name__}', 'ns_read': ns_read, 'msg': str(e)[:120]}
             try:
-                conv.init_params(nsamples=nsamples, nwindow=nwindow, extra='_c12')
+                init(nwindow, '_c12')
             except AssertionError as e:
                 which = 'window' if 'nwindow' in str(e) else 'overlap' if 'overlap' in str(e) else 'taper' if 'taper' in str(e) else '?'
                 return {'err': f'err AssertionError {which}', 'ns_read': ns_read}
             try:
-                status = conv.process(overwrite=True) if prior else conv.process()
+                status = process(bool(prior))
             except (ValueError, IndexError, AssertionError) as e:
                 for info in getattr(conv, 'shank_info', {}).values():
                     for k in ('lf_open_file', 'ap_open_file'):
@@ -237,7 +285,7 @@ def _convert(version, D, nwindow, nsamples=None, rate=None, identity=False, layo
                         sr.close()
                 except Exception as e:      # a file whose meta data contradicts its content may not open at all
                     open_err = f'{type(e).__name__}: {str(e)[:100]}'
-                files.append({'key': key, 'chns': [int(c) for c in info['chns']], 'nbytes': int(nbytes), 'raw': raw, 'meta': dict(md),
+                files.append({'name': f.name, 'dir': f.parent.name, 'key': key, 'chns': [int(c) for c in info['chns']], 'nbytes': int(nbytes), 'raw': raw, 'meta': dict(md),
                               'shape': shape, 'type': typ, 'fs': fs, 'mapped': mapped, 'open_err': open_err})
             return {'files': files, 'sos': np.array(conv.sos_lp), 'status': status, 'ns_read': ns_read}
     finally:
@@ -258,13 +306,16 @@ def _sync_words(ns, kind, rng):
         w = np.zeros(ns, dtype=np.uint16)
         for b in range(16):
             w |= (((t // (b + 1)) % 2).astype(np.uint16) << b)
+    elif kind == 'extreme':      # only the extreme int16 patterns: 0x8000 (-32768, bit 15 alone), 0x7fff, 0xffff (-1), 0, 1, 0x8001
+        w = rng.choice(np.array([0x8000, 0x7fff, 0xffff, 0, 1, 0x8001], dtype=np.uint16), size=ns)
     else:
         w = rng.integers(0, 65536, size=ns).astype(np.uint16)
     return w.view(np.int16)
 
 
 def _content(ns, kind, seed, sync_kind='random'):
-    """Deterministic AP content (ns x 385 int16), broadband and not constant, |x| <= 8191."""
+    """Deterministic AP content (ns x 385 int16), broadband and not constant; |x| <= 8191 (NP2 ADC range) except for the kinds
+    ending in 16, which use the whole int16 range including -32768 and 32767."""
     rng = np.random.default_rng([int(seed), 12])
     nv = NCH - 1
     if kind == 'white':
@@ -282,12 +333,24 @@ def _content(ns, kind, seed, sync_kind='random'):
         x = rng.normal(0, 100, size=(ns, nv))
         pos = rng.integers(0, ns, size=nv)
         x += (np.arange(ns)[:, None] >= pos[None, :]) * rng.integers(-6000, 6000, size=(1, nv))
+    elif kind == 'white16':      # full int16 range, the two extremes planted; its low-pass stays inside int16
+        x = rng.integers(-32768, 32768, size=(ns, nv)).astype(float)
+        k = max(ns // 20, 2)
+        x[rng.integers(0, ns, size=k), rng.integers(0, nv, size=k)] = rng.choice([-32768.0, 32767.0], size=k)
+    elif kind == 'square8191':   # full-swing square wave inside the ADC range (filter overshoot to about +-8740)
+        per = int(rng.integers(20, 300))
+        x = np.where(((np.arange(ns)[:, None] + rng.integers(0, per, size=(1, nv))) // per) % 2 == 0, float(AMP), float(-AMP - 1)) + rng.integers(-1, 2, size=(ns, nv))
+    elif kind == 'square16':     # full-swing square wave over the int16 range: the low-pass overshoots beyond int16 (see known_findings)
+        x = np.where((np.arange(ns)[:, None] // 100) % 2 == 0, 32767.0, -32768.0) * np.ones((1, nv))
+    elif kind == 'ramp16':       # distinct values over the whole int16 range, both extremes present
+        x = (np.arange(ns)[:, None] * 89 + np.arange(nv)[None, :] * 131) % 65536 - 32768.0
     elif kind == 'ramp':         # distinct values everywhere, cheap: identifies (sample, channel) for the index checks
         x = (np.arange(ns)[:, None] * 7 + np.arange(nv)[None, :] * 13) % (2 * AMP + 1) - AMP
     else:
         raise ValueError(kind)
     D = np.zeros((ns, NCH), dtype=np.int16)
-    D[:, :nv] = np.clip(np.rint(x), -AMP, AMP).astype(np.int16)
+    lim = (-32768, 32767) if kind.endswith('16') else (-AMP - 1 if kind == 'square8191' else -AMP, AMP)
+    D[:, :nv] = np.clip(np.rint(x), *lim).astype(np.int16)
     D[:, -1] = _sync_words(ns, sync_kind, rng)
     return D
 
@@ -467,6 +530,30 @@ def _layout_tag(version, layout):
     return 'layout=uneven' if len(set(cnt.values())) > 1 else 'layout=even-custom'
 
 
+def _gen_form(rng, p=0.55):
+    """Representation of the call, drawn independently of the values: only the non-default entries (see DEFAULT_FORM)."""
+    f = {}
+    if rng.random() >= p:
+        return f
+    if rng.random() < 0.4:
+        f['path'] = 'str'
+    if rng.random() < 0.25:
+        f['source'] = 'cbin'
+    for k in ('ctor', 'init', 'process'):
+        if rng.random() < 0.4:
+            f[k] = 'pos'
+    if rng.random() < 0.5:
+        f['post_check'] = True
+    for k in ('nwindow', 'nsamples'):
+        if rng.random() < 0.6:
+            f[k] = str(NUM_FORMS[int(rng.integers(1, len(NUM_FORMS)))])
+    return f
+
+
+def _form_tags(form):
+    return tuple(f'form:{k}={v}' for k, v in sorted((form or {}).items())) or ('form:default',)
+
+
 def _nwin(ns, w, ov):
     return max(-(-(ns - w) // (w - ov)), 0) + 1
 
@@ -487,15 +574,19 @@ def _tags(version, ns, w, ov, taper, extra=()):
 # ---------------------------------------------------------------------------------------------
 # correspondence
 # ---------------------------------------------------------------------------------------------
-def _structural_case(ctx, version, w, ns, extra_file, rate, sync_kind, seed, with_identity, lines, pending, tags, layout=None, prior=None):
+def _structural_case(ctx, version, w, ns, extra_file, rate, sync_kind, seed, with_identity, lines, pending, tags, layout=None, prior=None, form=None, content='ramp'):
     """Runs the real code now, queues the model requests; comparison happens after the Lean batch."""
     ns_file = ns + extra_file
-    D = _content(ns_file, 'ramp', seed, sync_kind)
+    D = _content(ns_file, content, seed, sync_kind)
     nsamples = ns if extra_file else None
     desc = {'version': version, 'ns': ns, 'nwindow': w, 'file_extra': extra_file, 'rate': rate or 'fixture', 'sync': sync_kind, 'seed': seed}
     if layout is not None:
         desc['layout'] = layout
-    res = _convert(version, D, w, nsamples=nsamples, rate=rate, layout=layout)
+    if form:
+        desc['form'] = form
+    if content != 'ramp':
+        desc['content'] = content
+    res = _convert(version, D, w, nsamples=nsamples, rate=rate, layout=layout, form=form)
     if res.get('ns_read') != ns_file:
         raise RuntimeError(f'scratch recording of {ns_file} samples is read as {res.get("ns_read")} samples (harness, not the property)')
     nw_model = w
@@ -503,13 +594,13 @@ def _structural_case(ctx, version, w, ns, extra_file, rate, sync_kind, seed, wit
     lines.append(_files_line(version, nw_model, ns, layout))
     lines.append(f'sync {nw_model} {ns} ' + (','.join(str(int(x)) for x in D[:ns, -1]) or '-'))
     lines.append(f'src {nw_model} {ns}')
-    ident = _convert(version, D, w, nsamples=nsamples, rate=rate, identity=True, layout=layout) if with_identity else None
+    ident = _convert(version, D, w, nsamples=nsamples, rate=rate, identity=True, layout=layout, form=form) if with_identity else None
     reuse = reuse_ident = None
     if prior:
         # the same extraction as the last of a sequence on ONE converter object (history must not matter)
-        reuse = _convert(version, D, w, nsamples=nsamples, rate=rate, layout=layout, prior=prior)
+        reuse = _convert(version, D, w, nsamples=nsamples, rate=rate, layout=layout, prior=prior, form=form)
         if with_identity and seed % 2 == 0:
-            reuse_ident = _convert(version, D, w, nsamples=nsamples, rate=rate, identity=True, layout=layout, prior=prior)
+            reuse_ident = _convert(version, D, w, nsamples=nsamples, rate=rate, identity=True, layout=layout, prior=prior, form=form)
     pending.append({'desc': desc, 'k0': k0, 'res': res, 'ident': ident, 'D': D, 'tags': tags, 'version': version, 'layout': layout,
                     'prior': prior, 'reuse': reuse, 'reuse_ident': reuse_ident})
 
@@ -533,10 +624,26 @@ def _compare_structural(ctx, item, answers, taper):
     else:
         model_n = a_src
     ctx.compare('count', dict(desc, op='count'), impl_n, model_n, nontrivial=nontriv, tags=('op=count',))
+    if 'files' in res:
+        d = dict(desc, op='lf-file-name')
+        ctx.case(d, nontrivial=False, tags=('op=lf-file-name',))
+        bad = _bad_names(version, res)
+        if bad:
+            ctx.mismatch('lf-file-name', d, bad, 'flat binary *.lf.bin next to the AP file (NP2.1) / in probe00<a-d><extra> (NP2.4), since compress=False')
     if item.get('reuse') is not None:
         _compare_reuse(ctx, item, a_files, a_sync, nontriv)
     for ident, opname in ((item['ident'], 'volt-identity'), (item.get('reuse_ident'), 'volt-identity-reuse')):
         _compare_identity(ctx, item, ident, opname, a_files, a_src, nontriv, taper)
+
+
+def _bad_names(version, res):
+    """compress=False was requested: every LF stream must be the flat binary <run>.lf.bin in its expected folder."""
+    out = []
+    for f in res['files']:
+        want_dir = 'probe00' if version != 'NP2.4' else 'probe00' + chr(97 + int(f['key'][5:])) + '_c12'
+        if f['name'] != '_spikeglx_ephysData_g0_t0.imec0.lf.bin' or f['dir'] != want_dir:
+            out.append(f'{f["dir"]}/{f["name"]}')
+    return ', '.join(out)
 
 
 def _files_digest(res):
@@ -591,11 +698,11 @@ def _compare_identity(ctx, item, ident, opname, a_files, a_src, nontriv, taper):
                     nontrivial=nontriv, tags=('op=' + opname, 'interior>0' if keep.any() else 'interior=0'))
 
 
-def _numeric_check(version, D, w1, w2, rate=None, res1=None, layout=None, prior=None):
+def _numeric_check(version, D, w1, w2, rate=None, res1=None, layout=None, prior=None, form=None):
     """The numeric half of the property on the real code: returns (None | failure text, stats)."""
     import scipy.signal
     ns = D.shape[0]
-    r1 = res1 or _convert(version, D, w1, rate=rate, layout=layout, prior=prior)
+    r1 = res1 or _convert(version, D, w1, rate=rate, layout=layout, prior=prior, form=form)
     r2 = _convert(version, D, w2, rate=rate, layout=layout) if w2 != w1 else r1
     stats = {}
     if 'err' in r1 or 'err' in r2:
@@ -629,6 +736,7 @@ def _numeric_check(version, D, w1, w2, rate=None, res1=None, layout=None, prior=
             sl = slice(MARGIN_LF, nrows - MARGIN_LF)
             for m, wv in ((m1, w1), (m2, w2)):
                 dr = np.abs(m[sl, :-1].astype(float) - ref_all[sl][:, cols])
+                dr[np.abs(ref_all[sl][:, cols]) > 32766] = 0      # outside the domain: the filtered trace itself does not fit int16
                 worst_r = max(worst_r, float(dr.max()))
                 if dr.max() > 1.0:
                     r, c = np.unravel_index(int(np.argmax(dr)), dr.shape)
@@ -652,7 +760,7 @@ def correspondence(ctx):
     for i, (version, w, ns, kind) in enumerate(cases):
         extra_file = int(rng.integers(1, 400)) if rng.random() < 0.12 else 0
         rate = 30000 if rng.random() < 0.5 else None
-        sync_kind = ['index', 'random', 'square'][int(rng.integers(0, 3))]
+        sync_kind = ['index', 'random', 'square', 'extreme'][int(rng.integers(0, 4))]
         seed = int(rng.integers(0, 2 ** 31))
         with_identity = ctx.quick or (i % 2 == 0)
         tags = _tags(version, ns, w, ov, taper, extra=('gen=' + kind, 'rate=30000' if rate else 'rate=fixture',
@@ -671,7 +779,11 @@ def correspondence(ctx):
             tags = tags + ('same-object-after-' + str(len(prior)),)
         else:
             tags = tags + ('fresh-object',)
-        _structural_case(ctx, version, w, ns, extra_file, rate, sync_kind, seed, with_identity, lines, pending, tags, layout=layout, prior=prior)
+        form = _gen_form(rng)
+        content = 'ramp16' if rng.random() < 0.5 else 'ramp'
+        tags = tags + _form_tags(form) + ('content=' + content,)
+        _structural_case(ctx, version, w, ns, extra_file, rate, sync_kind, seed, with_identity, lines, pending, tags, layout=layout, prior=prior,
+                         form=form, content=content)
     # default window (nwindow=None -> 2 s): two windows
     for version in (['NP2.1'] if ctx.quick else ['NP2.1', 'NP2.4']):
         wdef = int(ctx.consts.get('CONV_WINDOW_SECS', 2)) * int(ctx.consts.get('CONV_FS_AP', 30000))
@@ -688,17 +800,18 @@ def correspondence(ctx):
     # init_params on its own: assertion branch for windows that are not a multiple of the ratio, and the constants it leaves behind
     init_cases = [0, ov + ratio, 600, 601, 590, 1199, 1200, 9000, 60000, 60001] + [int(x) for x in rng.integers(1, 70000, size=ctx.n(20, 200))]
     init_impl = []
-    for w in init_cases:
-        init_impl.append(_impl_init(w))
+    init_forms = [str(NUM_FORMS[int(rng.integers(0, len(NUM_FORMS)))]) if k % 2 else 'int' for k in range(len(init_cases))]
+    for w, nf in zip(init_cases, init_forms):
+        init_impl.append(_impl_init(w, nf))
         lines.append(f'init {w}')
     answers = ctx.lean(lines)
     for item in pending:
         _compare_structural(ctx, item, answers, taper)
-    for w, a, b in zip(init_cases, init_impl, answers[len(answers) - len(init_cases):]):
-        ctx.compare('init', {'op': 'init', 'nwindow': w}, a, b, nontrivial=True,
-                    tags=('op=init', 'init_ok' if a.startswith('ok') else 'init_assert'))
+    for w, nf, a, b in zip(init_cases, init_forms, init_impl, answers[len(answers) - len(init_cases):]):
+        ctx.compare('init', {'op': 'init', 'nwindow': w, 'form': nf}, a, b, nontrivial=True,
+                    tags=('op=init', 'init_ok' if a.startswith('ok') else 'init_assert', 'init-form:' + nf))
     # --- numeric oracle (partial: not a theorem) ----------------------------------------------
-    kinds = ['white', 'gauss', 'coloured', 'spikes', 'step']
+    kinds = ['white', 'gauss', 'coloured', 'spikes', 'step', 'white16', 'square8191']
     worst = {'max_window_diff': 0.0, 'max_ref_diff': 0.0}
     nnum = ctx.n(20, 100)
     for i in range(nnum):
@@ -721,10 +834,15 @@ def correspondence(ctx):
         if i % 3 == 2:      # the window-w1 extraction is the second one made by its converter object
             prior = [int(ratio * rng.integers(ov // ratio + 2, ov // ratio + 300))]
             desc['prior'] = prior
-        D = _content(ns, kind, seed)
-        fail, stats = _numeric_check(version, D, w1, w2, layout=layout, prior=prior)
+        form = _gen_form(rng)
+        if form:
+            desc['form'] = form
+        D = _content(ns, kind, seed, 'extreme' if i % 4 == 0 else 'random')
+        if i % 4 == 0:
+            desc['sync'] = 'extreme'
+        fail, stats = _numeric_check(version, D, w1, w2, layout=layout, prior=prior, form=form)
         ctx.case(desc, nontrivial=True, tags=('op=numeric', 'content=' + kind, version + '-numeric', 'numeric-' + _layout_tag(version, layout),
-                                              'numeric-same-object' if prior else 'numeric-fresh-object'))
+                                              'numeric-same-object' if prior else 'numeric-fresh-object') + tuple('numeric-' + t for t in _form_tags(form)))
         for k in worst:
             worst[k] = max(worst[k], stats.get(k, 0.0))
         if fail:
@@ -745,7 +863,7 @@ def correspondence(ctx):
     ctx.note(f'constants from init_params: overlap {ov}, taper {taper}, ratio {ratio}; structural cases {len(pending)}, init cases {len(init_cases)}')
 
 
-def _impl_init(w):
+def _impl_init(w, nform='int'):
     """init_params on a tiny scratch recording (the recording is irrelevant to the parameters)."""
     from neuropixel import NP2Converter
     tmp = tempfile.mkdtemp(prefix='c12_')
@@ -755,7 +873,7 @@ def _impl_init(w):
             binf = _make_recording(tmp, 'NP2.1', np.zeros((200, NCH), dtype=np.int16), 30000)
             conv = NP2Converter(binf, post_check=False, compress=False)
             try:
-                conv.init_params(nwindow=w)
+                conv.init_params(nwindow=_num(w, nform))
             except AssertionError as e:
                 return 'err AssertionError ' + ('window' if 'nwindow' in str(e) else 'overlap' if 'overlap' in str(e) else 'taper')
             return f'ok ratio={int(conv.ratio)} window={int(conv.samples_window)} overlap={int(conv.samples_overlap)} taper={int(conv.samples_taper)}'
@@ -784,7 +902,8 @@ def oracle(inp):
     D = _content(ns + extra, inp.get('content', 'white'), int(inp.get('seed', 0)), inp.get('sync', 'random'))
     layout = inp.get('layout') if version == 'NP2.4' else None
     prior = [int(x) for x in (inp.get('prior') or []) if int(x) > ov and int(x) % ratio == 0] or None
-    res = _convert(version, D, w1, nsamples=(ns if extra else None), rate=rate, layout=layout, prior=prior)
+    form = inp.get('form') or None
+    res = _convert(version, D, w1, nsamples=(ns if extra else None), rate=rate, layout=layout, prior=prior, form=form)
     if 'err' in res:
         return f'conversion raised {res["err"][4:]}: {res.get("msg", "")}'
     info = _ap_meta_info(version, layout)
@@ -794,6 +913,9 @@ def oracle(inp):
     shanks = sorted(set(info['shank_map']))
     if len(res['files']) != len(shanks):
         return f'{len(res["files"])} LF files for {len(shanks)} shanks'
+    bad = _bad_names(version, res)
+    if bad:
+        return f'compress=False was requested but the LF stream is not the flat binary *.lf.bin in its shank folder: {bad}'
     for f in res['files']:
         sh = int(f['key'][5:])
         n_written = int((sm == sh).sum()) + 1           # the shank's channels + the sync channel
@@ -841,7 +963,7 @@ def oracle(inp):
                         f'NP2Converter object differs from the one a fresh object writes: {int((a != b).any(axis=1).sum())} of {a.shape[0]} LF samples differ, '
                         f'first at LF sample {r} column {c}: {int(a[r, c])} vs {int(b[r, c])}')
     if w2 is not None or nrows > 2 * MARGIN_LF:
-        fail, _ = _numeric_check(version, D[:ns], w1, w2 if w2 is not None else w1, rate=rate, res1=(res if extra == 0 else None), layout=layout)
+        fail, _ = _numeric_check(version, D[:ns], w1, w2 if w2 is not None else w1, rate=rate, res1=(res if extra == 0 else None), layout=layout, form=(form if extra == 0 else None))
         if fail:
             return fail
     return None
@@ -857,6 +979,11 @@ def _neighbourhood():
                 out.append({'version': version, 'ns': ns, 'nwindow': w1, 'nwindow2': w2, 'content': 'white', 'seed': ns})
                 if w1 == lo:   # a second extraction by the same converter object
                     out.append({'version': version, 'ns': ns, 'nwindow': w1, 'nwindow2': w2, 'content': 'white', 'seed': ns, 'prior': [w2]})
+            if w1 == lo:   # the same calls in other legitimate spellings / representations
+                out.append({'version': 'NP2.1', 'ns': ns, 'nwindow': w1, 'nwindow2': w2, 'content': 'white16', 'seed': ns, 'sync': 'extreme',
+                            'form': {'path': 'str', 'source': 'cbin', 'ctor': 'pos', 'init': 'pos', 'process': 'pos', 'nwindow': 'np.float64', 'post_check': True}})
+                out.append({'version': 'NP2.4', 'ns': ns, 'nwindow': w1, 'nwindow2': w2, 'content': 'square8191', 'seed': ns, 'sync': 'extreme',
+                            'form': {'path': 'str', 'ctor': 'pos', 'init': 'pos', 'nwindow': 'np.uint16', 'post_check': True}})
             if w1 == lo:   # NP2.4 with channels unevenly spread over the shanks
                 out.append({'version': 'NP2.4', 'ns': ns, 'nwindow': w1, 'nwindow2': w2, 'content': 'white', 'seed': ns,
                             'layout': [list(b) for b in SPECIAL_LAYOUTS[(ns // 12) % 3]]})
@@ -876,6 +1003,8 @@ def search(ctx, reasons):
             inp['layout'] = c['layout']
         if c.get('prior'):
             inp['prior'] = c['prior']
+        if c.get('form'):
+            inp['form'] = c['form']
         key = repr(sorted(inp.items(), key=lambda kv: kv[0]))
         if key not in seen:
             seen.add(key)
@@ -909,11 +1038,24 @@ def search(ctx, reasons):
 
 
 def _calls(inp):
-    seq = ['conv = NP2Converter(ap_file, post_check=False, compress=False)']
+    """The concrete sequence of calls of an oracle input, in the spelling (`form`) that was used."""
+    fm = dict(DEFAULT_FORM, **(inp.get('form') or {}))
+    num = lambda x, k: 'None' if x is None else (repr(x) if fm[k] == 'int' else f'float({x})' if fm[k] == 'float' else f'{fm[k]}({x})')
+    apf = "'<dir>/probe00/_spikeglx_ephysData_g0_t0.imec0.ap." + ('cbin' if fm['source'] == 'cbin' else 'bin') + "'"
+    apf = apf if fm['path'] == 'str' else f'Path({apf})'
+    pc = bool(fm['post_check'])
+    seq = [f'conv = NP2Converter({apf}, {pc}, False, False)' if fm['ctor'] == 'pos'
+           else f'conv = NP2Converter({apf}, post_check={pc}, delete_original=False, compress=False)']
+    nsv = inp['ns'] if inp.get('file_extra') else None
+
+    def init(w, extra):
+        if fm['init'] == 'pos':
+            return f"conv.init_params({num(nsv, 'nsamples')}, {num(w, 'nwindow')}, '{extra}')"
+        return f"conv.init_params(nsamples={num(nsv, 'nsamples')}, nwindow={num(w, 'nwindow')}, extra='{extra}')"
+    proc = lambda ow: f'conv.process({ow})' if fm['process'] == 'pos' else (f'conv.process(overwrite={ow})' if ow else 'conv.process()')
     for k, p in enumerate(inp.get('prior') or []):
-        seq += [f"conv.init_params(nwindow={p}, extra='_c12p{k}')", f'conv.process(overwrite={k > 0})']
-    ns_arg = f"nsamples={inp['ns']}, " if inp.get('file_extra') else ''
-    seq += [f"conv.init_params({ns_arg}nwindow={inp.get('nwindow')}, extra='_c12')", f"conv.process(overwrite={bool(inp.get('prior'))})"]
+        seq += [init(p, f'_c12p{k}'), proc(k > 0)]
+    seq += [init(inp.get('nwindow'), '_c12'), proc(bool(inp.get('prior')))]
     return seq
 
 
@@ -928,4 +1070,16 @@ def known_findings(ctx):
         ov, taper, ratio = _domain()
         res = _convert('NP2.1', _content(taper - 44, 'white', 0), 2 * ov + 4 * ratio)
         return res.get('err') == 'err ValueError'
-    return {'recording-shorter-than-taper': short}
+    def overshoot():
+        # full-swing square wave over the int16 range: zero-phase low-pass overshoots to about +-34955, the int16 cast wraps
+        import scipy.signal
+        D = _content(3011, 'square16', 0)
+        r = _convert('NP2.1', D, 1200)
+        if 'err' in r:
+            return False
+        m = _lf_matrix(r['files'][0])
+        ref = scipy.signal.sosfiltfilt(r['sos'], D[:, :-1].astype(float), axis=0)[::12]
+        sl = slice(MARGIN_LF, m.shape[0] - MARGIN_LF)
+        bad = (np.abs(ref[sl]) > 32767.5) & (np.abs(m[sl, :-1] - ref[sl]) > 1)
+        return bool(bad.any())
+    return {'recording-shorter-than-taper': short, 'lf-overshoot-beyond-int16-wraps': overshoot}
